@@ -385,7 +385,13 @@ class Heap:
                         f"{where}: object {j} in form '{o.form.name}': {name} gives {got!r} but element #{i} ('{nm}') is {v!r}",
                     )
         resolved = {forms.Form.alt.get(n_, n_) for n_ in names} | set(names)
-        for foreign in sorted(forms._cache_param_names - resolved):
+        every_name = set()
+        for fname_ in FORMS:
+            try:
+                every_name.update(forms.get_form(fname_).param_names)
+            except Exception:  # noqa
+                pass
+        for foreign in sorted(every_name - resolved):
             if forms.Form.alt.get(foreign) in names:
                 continue  # e.g. 'theta': the literal name of a cylindrical element and the documented alias of the spherical one
             ctx.checks += 1
